@@ -1017,8 +1017,7 @@ func c06R2ResolverMaps(c *Ctx) {
 // of an in-module validator g(p) that refuses "" with ErrMissingReference.
 func c06EmptyGuards(c *Ctx, fn *ssa.Function, p *ssa.Parameter) (nonEmpty, empty []Edge, via string) {
 	isP := func(v ssa.Value) bool { return strip(v) == ssa.Value(p) }
-	isEmpty := func(v ssa.Value) bool { s, ok := constString(v); return ok && s == "" }
-	eq, ne := c05EqEdges(fn, isP, isEmpty)
+	eq, ne := c05EmptyStrEdges(fn, isP)
 	nonEmpty, empty = append(nonEmpty, ne...), append(empty, eq...)
 	if len(eq) > 0 {
 		via = "inline test"
@@ -1028,7 +1027,7 @@ func c06EmptyGuards(c *Ctx, fn *ssa.Function, p *ssa.Parameter) (nonEmpty, empty
 		if g == nil || !inModule(g) || len(call.Common().Args) != 1 || !isP(call.Common().Args[0]) || ErrOf(call) == nil || len(g.Params) != 1 {
 			continue
 		}
-		geq, _ := c05EqEdges(g, func(v ssa.Value) bool { return strip(v) == ssa.Value(g.Params[0]) }, isEmpty)
+		geq, _ := c05EmptyStrEdges(g, func(v ssa.Value) bool { return strip(v) == ssa.Value(g.Params[0]) })
 		if ok, _ := c06Refusal(c, g, geq, "~/errdef.ErrMissingReference", nil); !ok {
 			continue
 		}
